@@ -6,7 +6,7 @@ HERE = os.path.dirname(os.path.dirname(os.path.abspath(__file__)))
 TECH = "contract-based deductive verification of the real code: "
 
 CLAIMS = {
- "C01": ("Verus V-DESER (readers, cursors, generic sums, ranges, deep-sequence loops proved against a format grammar for all payload types and lengths) + Kani round-trip lemmas per instantiation (complete for fixed-size types, bounded for sequences)",
+ "C01": ("Verus V-DESER/V-DERIVE (readers, cursors, generic sums, ranges, derive samples, deep-sequence loops and the zero-copy sequence reader skeleton proved against a format grammar for all payload types, offsets and lengths) + Kani round-trip lemmas per instantiation (complete for fixed-size types with a symbolic start offset, bounded for sequences)",
          "5 C01", "Verus: assumed contracts of primitive impls and unsafe helpers (checked by Kani for listed types); Kani: enumerated instantiations, sequence bounds stated per harness; serializer half only via Kani (Verus rejects the cyclic Serialize traits)"),
  "C02": ("Verus V-DESER eps contracts against the same grammar as full copy (agreement is by construction of the shared parse) + Kani eps round-trip lemmas on placed buffers",
          "5 C02", "start offsets of Kani eps lemmas are concrete (listed per harness); all-offset padding carried by V-PAD/V-WRITE/V-DESER align contracts"),
@@ -42,6 +42,26 @@ CLAIMS = {
          "5 C19", "content <= 6 bytes, read/write <= 3-5 bytes, position <= 20 (40 thorough); histories of any length by induction over the state invariant"),
 }
 
+TECHNIQUE = {
+ "C01": "Verus contracts (trait-level DeserializeInner contract against a grammar; loop invariants of the deep-sequence helpers; control skeleton of the unsafe zero-copy sequence reader) + Kani round-trip lemma harnesses on the unmodified crate",
+ "C02": "Verus contracts (eps-copy contract against the same grammar as full copy) + Kani eps round-trip lemma harnesses on placed buffers",
+ "C03": "Kani lemma harnesses on the unsafe carvers (addresses vs. reference block list) + Verus contract of the eps sequence carver (cursor advances over exactly the written bytes)",
+ "C04": "Verus contracts on every built-in TypeHash/AlignHash implementation (hash feed equals the published recipe; injectivity lemmas) + Kani closed-term digest lemmas over a near-miss universe",
+ "C05": "Verus contracts on rustc-expanded derive output of sample definitions + Kani lemma harnesses per sample (round trips, units, tags, TypeId equalities of the substitution rule)",
+ "C06": "Kani lemma harnesses: byte equality with an independent reference encoder (header included) + Verus contracts on hash recipes and readers",
+ "C07": "Verus proof of the padding formula (bit-vector + arithmetic lemmas), loop invariant of the padding writer, reader align contracts + Kani byte-count and unit lemmas",
+ "C10": "Kani lemma harness, complete: all 29 fixed header bytes symbolic against the decision table, on the real check_header",
+ "C11": "Verus contracts (Short => ReadError) and the trait-level prefix lemma proved per implementation and by induction for sequences + Kani cut lemma harnesses",
+ "C12": "Kani placement lemma harnesses over symbolic base residues on the real address check",
+ "C13": "Verus contracts on the position-tracking writer and the padding loop (error propagation, prefix property) + Kani failing/short writer lemma harnesses incl. the real entry points",
+ "C14": "Kani lemma harnesses over fragmenting and failing io::Read / ReadNoStd sources (incl. destructor-tracking elements) + Verus reader contracts",
+ "C15": "Verus contracts (tag i <-> variant i, InvalidTag(tag) otherwise; all payload types) + Kani tag-table lemma harnesses",
+ "C16": "Kani lemma harnesses: byte equality of slice / iterator / vector serializations, lying iterators; Verus/Kani hash equality",
+ "C17": "Kani lemma harnesses: the zero-copy run-time check panics before any write (hand-written and derived wrongly declared types); must-fail canary",
+ "C18": "Kani lemma harnesses on the real SchemaWriter against plain serialization and row geometry",
+ "C19": "Kani per-operation lemma harnesses from an arbitrary reachable state against std Cursor semantics (model validated against the real std::io::Cursor)",
+}
+
 NOT_APPLICABLE = {
  "C08": "file-system and mmap calls are outside both verifiers (Kani has no model, Verus no dialect); quantifies over feature sets and thread schedules",
  "C09": "a statement about the type system over all client programs and about leak behaviour of file-bound loaders; no contract on a function within reach expresses it",
@@ -63,7 +83,7 @@ def main():
             "engine": "verus+kani",
             "level_claimed": {"category": "proof", "text": text, "design_ref": "DESIGN.md section " + ref},
             "level_note": note,
-            "technique": TECH + "Verus requires/ensures/invariants on functions extracted verbatim from /repo each run, Kani lemma harnesses (assume pre; call real function; assert post) where Verus cannot read the code",
+            "technique": TECH + TECHNIQUE.get(pid, "Verus requires/ensures/invariants on functions extracted verbatim from /repo each run, Kani lemma harnesses (assume pre; call real function; assert post) where Verus cannot read the code"),
         })
     na = [{"property_id": p, "reason": r} for p, r in NOT_APPLICABLE.items() if p not in CLAIMS]
     m = {
